@@ -26,8 +26,8 @@ def main():
         lambda: build.build_exe("gasan", ["iteradapt.cpp"]),
         lambda: build.build_exe("plain", ["mtlog.cpp"]),
         lambda: build.build_exe("gtsan", ["mtlog.cpp"]),
-        lambda: build.build_exe("gtsan", ["mtindep.cpp"], build.OPTIONS_SRCS),
-        lambda: build.build_exe("plain", ["mtindep.cpp"], build.OPTIONS_SRCS),
+        lambda: build.build_exe("gtsan", ["mtindep.cpp"], build.OPTIONS_SRCS, link=["-ldl"]),
+        lambda: build.build_exe("plain", ["mtindep.cpp"], build.OPTIONS_SRCS, link=["-ldl"]),
     ]
     import c19
     jobs.append(c19._build)
